@@ -35,6 +35,9 @@ type Fn struct {
 	AtomRename func(string) string
 	defCache map[*types.Var]defInfo
 	strictLoop bool
+	// ExpandPreds makes FormulaOf replace calls of one-line predicate helpers by their bodies.
+	ExpandPreds bool
+	expandDepth int
 }
 
 // Vertex kinds.
